@@ -167,6 +167,13 @@ pub fn fault_case(dir: &std::path::PathBuf, word: &[usize], leave_after: Option<
 /// `complete`: just before the other connection ends (see `leave_after`), P delivers every piece, so
 /// that connection's end starts the extractor, which finishes while the tracker is still failing.
 pub fn fault_case_ext(dir: &std::path::PathBuf, word: &[usize], leave_after: Option<usize>, final_order: &[usize], complete: bool, verbose: bool) -> (u64, Option<(&'static str, String)>) {
+    fault_case_late(dir, word, leave_after, final_order, complete, None, verbose)
+}
+
+/// `late_fault`: one more failed announce AFTER the first good reply (the tracker flaps). It only
+/// matters when two announce tasks are alive (a second connection ended during the outage): the one
+/// that did not get the good reply fails once more before it succeeds.
+pub fn fault_case_late(dir: &std::path::PathBuf, word: &[usize], leave_after: Option<usize>, final_order: &[usize], complete: bool, late_fault: Option<usize>, verbose: bool) -> (u64, Option<(&'static str, String)>) {
     let t = Torrent::new("t", 5, &[("f", 15)], true);
     // P (0) stays, Q (1) leaves first and triggers the re-announce, R (2) is only listed at the end,
     // S (3) is connected from the start and may leave in the middle of the fault sequence
@@ -174,6 +181,9 @@ pub fn fault_case_ext(dir: &std::path::PathBuf, word: &[usize], leave_after: Opt
     let mut script = vec![TrackerOutcome::Good(vec![0, 1, 3])];
     script.extend(word.iter().map(|f| FAULTS[*f].clone()));
     script.push(TrackerOutcome::Good(final_order.to_vec()));
+    if let Some(f) = late_fault {
+        script.push(FAULTS[f].clone());
+    }
     let mut w = FullWorld::new(&t, &cfgs, script, TrackerOutcome::Good(final_order.to_vec()), dir);
     let mut steps = 1u64;
     let desc = |w: &FullWorld| format!("announces={} session={} P.connects={} Q.connects={} R.connects={}", w.announces.borrow().len(), w.session_key(), w.peers[0].connects, w.peers[1].connects, w.peers[2].connects);
@@ -286,6 +296,16 @@ pub fn fault_case_ext(dir: &std::path::PathBuf, word: &[usize], leave_after: Opt
     if w.peers[1].connects != 2 || w.peers[2].connects != 1 {
         let class = if word.len() >= 64 { "deadlock-after-64-failed-announces" } else { "listed-peers-not-contacted-after-recovery" };
         return (steps, Some((class, format!("after {} failed announces and a good one listing P, Q, R: {}", word.len(), desc(&w)))));
+    }
+    // and the session still serves afterwards: the probe connection toggles once more
+    if w.peers[probe].conn.as_ref().map(|c| !c.closed_by_peer).unwrap_or(false) && w.listed(probe) {
+        p_chokes = !p_chokes;
+        w.step(&FEv::Feed(probe, refwire::encode(&if p_chokes { Msg::Choke } else { Msg::Unchoke })));
+        steps += 1;
+        let seen = w.snap().and_then(|s| s.peers.iter().find(|p| p.addr == w.peers[probe].cfg.addr).map(|p| p.choked));
+        if seen != Some(p_chokes) {
+            return (steps, Some(("session-stops-serving-connections-after-recovery", format!("after the good reply{} a peer message is not processed any more (manager's view: choked={:?}): {}", if late_fault.is_some() { " and one more failed announce of a second announce task" } else { "" }, seen, desc(&w)))));
+        }
     }
     (steps, None)
 }
@@ -441,6 +461,26 @@ fn fault_part(ctx: &Ctx) -> (u64, u64, Vec<Value>) {
         },
         |dir, _, (word, k)| fault_case_ext(dir, word, Some(*k), &[0, 1, 2], true, false),
     );
+    // two announce tasks (a second connection ended during the outage) and a tracker that fails once
+    // more after its first good reply
+    let mut lcases: Vec<(Vec<usize>, usize, usize)> = vec![];
+    for w in &words {
+        if w.len() == 2 || w.len() == 3 {
+            for k in 0..w.len() - 1 {
+                for late in 0..FAULTS.len() {
+                    lcases.push((w.clone(), k, late));
+                }
+            }
+        }
+    }
+    let lres = core::par_map(
+        &lcases,
+        |w| {
+            core::set_quiet_panics(true);
+            core::private_cwd("c19", &format!("l{}", w))
+        },
+        |dir, _, (word, k, late)| fault_case_late(dir, word, Some(*k), &[0, 1, 2], false, Some(*late), false),
+    );
     let res = core::par_map(
         &cases,
         |w| {
@@ -472,6 +512,16 @@ fn fault_part(ctx: &Ctx) -> (u64, u64, Vec<Value>) {
             }
         }
     }
+    for ((word, k, late), (n, v)) in lcases.iter().zip(lres.iter()) {
+        steps += n;
+        if let Some((class, why)) = v {
+            if *class == "MACHINERY" {
+                ctx.machinery_error(why.clone());
+            } else {
+                ctx.violation(class, format!("{} [a second connection ended after failure {}, so two announce tasks were alive; one more {:?} after the first good reply]", why, k, FAULTS[*late]), json!({"kind": "faults", "word": word, "leave_after": k, "final_order": [0, 1, 2], "late_fault": late}));
+            }
+        }
+    }
     let mut bcases: Vec<(usize, Vec<usize>)> = vec![];
     for j in 7..=13usize {
         for word in [vec![], vec![0], vec![2, 3], vec![1, 0, 3]] {
@@ -497,7 +547,7 @@ fn fault_part(ctx: &Ctx) -> (u64, u64, Vec<Value>) {
         }
     }
     let samples = vec![json!({"tracker_outcomes": ["Good[P,Q]", "Refused", "Http500", "Good[P,Q,R]"], "peer_events": "P: handshake+bitfield+unchoke; Q: handshake, close; after each failure P toggles choke"})];
-    ((cases.len() + bcases.len() + ccases.len()) as u64, steps, samples)
+    ((cases.len() + bcases.len() + ccases.len() + lcases.len()) as u64, steps, samples)
 }
 
 /// Deep nesting goes through the recursive decoder: probe in subprocesses (a stack overflow aborts).
@@ -553,7 +603,7 @@ pub fn run(ctx: &Ctx) -> Outcome {
     o.set("fault_sequences", json!(fault_runs));
     o.set("evaluations", json!(sigma + docs.len() as u64));
     o.set("distinct_nontrivial", json!(accepted));
-    o.set("rule", json!(format!("(a) every string over the C16 alphabet of length 0..={} through TrackerResp::from_bencode (totality); structured replies = peers list of 0..3 entries drawn from 11 entry shapes (2 good, 9 malformed) or missing/ill-typed x 5 interval shapes x 5 failure-reason shapes (absent, text, empty, non-UTF-8, ill-typed), all distinct; non-trivial = structured replies read as success. (b) full-session world (real event_loop, tracker task, retry loop, handle_tracker_cmd, spawn_peer_handler over the seams): tracker outcome words F^n.S for every F-word of length <= 3 (thorough 4) over the four fault kinds (refused, HTTP 500, garbage body, failure reason) and the four homogeneous words for every longer n up to 70 (thorough 100), with a live connection P, each word alone and with another connection ending after 0..2 failures (a KillReq in the middle of the fault sequence); after every failure P toggles choke/unchoke and the manager must have processed it in that quiescent step; after S the listed peers must be contacted; completion cases: for words of length 2..3 (and the long ones) P delivers every piece after 0..1 failures and another connection ends, so the extractor runs and finishes during the outage, same obligations; budget cases: the good reply (after 0..3 faults) arrives while 7..=13 connected peers are interesting (15 connections from two earlier announces): no panic or hang, still serving, min(3, max(0, 11 - j)) of the 3 listed peers dialled at once and the others exactly once as three connections end; states = fault words, transitions = events executed", max_len)));
+    o.set("rule", json!(format!("(a) every string over the C16 alphabet of length 0..={} through TrackerResp::from_bencode (totality); structured replies = peers list of 0..3 entries drawn from 11 entry shapes (2 good, 9 malformed) or missing/ill-typed x 5 interval shapes x 5 failure-reason shapes (absent, text, empty, non-UTF-8, ill-typed), all distinct; non-trivial = structured replies read as success. (b) full-session world (real event_loop, tracker task, retry loop, handle_tracker_cmd, spawn_peer_handler over the seams): tracker outcome words F^n.S for every F-word of length <= 3 (thorough 4) over the four fault kinds (refused, HTTP 500, garbage body, failure reason) and the four homogeneous words for every longer n up to 70 (thorough 100), with a live connection P, each word alone and with another connection ending after 0..2 failures (a KillReq in the middle of the fault sequence); after every failure P toggles choke/unchoke and the manager must have processed it in that quiescent step; after S the listed peers must be contacted; late-fault cases: for words of length 2..3 with a second connection ending during the outage (two announce tasks alive) the tracker fails once more after its first good reply, every fault kind; after every case the probe connection toggles once more and must be served; completion cases: for words of length 2..3 (and the long ones) P delivers every piece after 0..1 failures and another connection ends, so the extractor runs and finishes during the outage, same obligations; budget cases: the good reply (after 0..3 faults) arrives while 7..=13 connected peers are interesting (15 connections from two earlier announces): no panic or hang, still serving, min(3, max(0, 11 - j)) of the 3 listed peers dialled at once and the others exactly once as three connections end; states = fault words, transitions = events executed", max_len)));
     o.set("sigma_strings", json!(sigma));
     o.set("structured_replies", json!(docs.len()));
     let picks = ctx.seeded_pick(docs.len(), 4);
@@ -593,7 +643,8 @@ pub fn replay(_ctx: &Ctx, r: &Value) -> i32 {
         let leave = r["leave_after"].as_u64().map(|x| x as usize);
         let order: Vec<usize> = r["final_order"].as_array().map(|a| a.iter().map(|x| x.as_u64().unwrap() as usize).collect()).unwrap_or_else(|| vec![0, 1, 2]);
         let complete = r["complete"].as_bool().unwrap_or(false);
-        return match fault_case_ext(&dir, &word, leave, &order, complete, true).1 {
+        let late = r["late_fault"].as_u64().map(|x| x as usize);
+        return match fault_case_late(&dir, &word, leave, &order, complete, late, true).1 {
             Some((class, why)) => {
                 println!("VIOLATION property=C19 replay=<this file>\n  class={} {}", class, why);
                 1
